@@ -1,0 +1,65 @@
+//go:build verif
+
+package router
+
+import (
+	"net/netip"
+
+	"github.com/mycoria/mycoria/frame"
+	"github.com/mycoria/mycoria/mgr"
+)
+
+// Verification hooks (build tag "verif"): synchronous entry points into the worker bodies
+// and read-only views, used by the /verif harness.
+
+// VerifHandleFrame runs the body of the frameHandler worker loop for one frame inside
+// mgr.Do, so that a recovered panic surfaces as mgr.ErrWorkerPanic. handlerErr is what
+// handleFrame returned (the worker only logs it and returns the frame to the pool).
+func (r *Router) VerifHandleFrame(f frame.Frame) (handlerErr, workerErr error) {
+	workerErr = r.mgr.Do("verif router", func(w *mgr.WorkerCtx) error {
+		if err := r.handleFrame(w, f); err != nil {
+			handlerErr = err
+			f.ReturnToPool()
+		}
+		return nil
+	})
+	return handlerErr, workerErr
+}
+
+// VerifHandleTunPacket runs handleTunPacket for one packet inside mgr.Do.
+func (r *Router) VerifHandleTunPacket(packetData []byte) error {
+	return r.mgr.Do("verif tun", func(w *mgr.WorkerCtx) error {
+		r.handleTunPacket(w, packetData)
+		return nil
+	})
+}
+
+// VerifConnState is an exported view of one connection state entry.
+type VerifConnState struct {
+	LocalIP, RemoteIP     netip.Addr
+	Protocol              uint8
+	LocalPort, RemotePort uint16
+	Inbound               bool
+	Status                uint32
+}
+
+// VerifConnStates returns a snapshot of the connection states.
+func (r *Router) VerifConnStates() []VerifConnState {
+	r.connStatesLock.RLock()
+	defer r.connStatesLock.RUnlock()
+	out := make([]VerifConnState, 0, len(r.connStates))
+	for k, e := range r.connStates {
+		out = append(out, VerifConnState{k.localIP, k.remoteIP, k.protocol, k.localPort, k.remotePort, e.inbound, e.status.Load()})
+	}
+	return out
+}
+
+// VerifClearConnStates forgets all connection states.
+func (r *Router) VerifClearConnStates() {
+	r.connStatesLock.Lock()
+	defer r.connStatesLock.Unlock()
+	clear(r.connStates)
+}
+
+// VerifSetHandleTraffic switches traffic handling on or off.
+func (r *Router) VerifSetHandleTraffic(on bool) { r.handleTraffic.Store(on) }
